@@ -29,7 +29,7 @@ import time
 import numpy as np
 
 from common import SPEC, Check, MachineryError, tlc, validate_traces, workdir
-from record import CacheRecorder, stamp
+from record import CacheRecorder, MemoDynsys, stamp
 
 OBJ = SPEC / "objects"
 CFG = SPEC / "cfg"
@@ -353,7 +353,7 @@ class OrbitWorld:
         events, problems = [], []
         created: dict = {}          # real correction-cache key -> (tolname requested, L at creation)
         diverged = None             # cause key while the object's public state differs from its logical state
-        last_prop_hit = False
+        saved_obs, saved_div = None, None
         last_mut = "init"
         for k, st in enumerate(hist):
             op, arg = st["op"], list(st["arg"])
@@ -376,37 +376,53 @@ class OrbitWorld:
                            "fresh": fresh, "post": post})
             # ---------------- diagnosis (structural key of the failing class)
             key = None
-            comp = [n for n, a, b in zip(("initial_state", "period", "trajectory", "correction_options"), obs_r, obs_t)
-                    if a != b]
+            names = ("initial_state", "period", "trajectory", "correction_options")
+            comp = [n for n, x, y in zip(names, obs_r, obs_t) if x != y]
+            hit_now = any(h[2] == "H" for h in hits)
+            if op == "Save":
+                saved_obs, saved_div = obs_r, diverged
             if op == "Correct":
                 want = L[3] if arg[0] == "default" else arg[0]
                 for h in hits:
                     if h[0] == "cor" and h[2] == "M":
                         created[h[3]] = (want, L[:2])
-                    if h[0] == "cor" and h[2] == "H" and h[3] in created:
-                        c_tol, c_L = created[h[3]]
-                        if c_tol != want and (not fresh or not post):
-                            key = "make_key|dict-values-ignored:orbit.correct"
-                        elif not fresh:
-                            key = "orbit.correct|stale-result-after-state-change"
-                        elif not post:
-                            key = "orbit.correct|cache-hit-skips-apply_correction"
-            if key is None and (not fresh or not post):
-                hit_now = any(h[2] == "H" for h in hits)
-                if op in ("Load", "LoadInplace"):
-                    key = f"orbit.{'load' if op == 'Load' else 'load_inplace'}|{'+'.join(comp) or 'state'}-not-preserved"
+            if not fresh or not post:
+                if op in ("Load", "LoadInplace") and obs_r != saved_obs:
+                    for n, x, y in zip(names, obs_r, saved_obs):
+                        if x != y:          # one key per observable that the round trip changed
+                            kk = (f"orbit.save-load|stale-{n}-resurrected" if y is None
+                                  else f"orbit.save-load|{n}-not-preserved")
+                            if key is not None:
+                                problems.append({"key": key, "step": k, "op": op, "arg": arg, "real": list(out_r),
+                                                 "twin": list(out_t), "real_state": list(obs_r),
+                                                 "twin_state": list(obs_t), "hits": []})
+                            key = kk
+                elif op in ("Load", "LoadInplace"):
+                    key = saved_div or f"orbit.{op}|post-state-{'+'.join(comp)}-differs"
+                elif diverged:
+                    key = diverged                      # consequence of an earlier, already attributed divergence
+                elif op == "Correct":
+                    for h in hits:
+                        if h[0] == "cor" and h[2] == "H" and h[3] in created:
+                            c_tol, c_L = created[h[3]]
+                            if c_tol != want:
+                                key = "make_key|dict-values-ignored:orbit.correct"
+                            elif not fresh:
+                                key = "orbit.correct|stale-result-after-state-change"
+                            else:
+                                key = "orbit.correct|cache-hit-skips-apply_correction"
+                    key = key or f"orbit.Correct|differs-from-fresh-twin-after-{last_mut}"
                 elif op == "Propagate" and fresh and comp == ["trajectory"] and hit_now:
                     key = "orbit.propagate|_trajectory-not-updated-on-cache-hit"
-                elif diverged and not post and op.startswith("Read"):
-                    key = diverged
-                elif op == "ReadTrajectory" and last_prop_hit:
-                    key = "orbit.propagate|_trajectory-not-updated-on-cache-hit"
+                elif not fresh and not hit_now and last_mut in ("Load", "LoadInplace") and \
+                        op in ("ReadStability", "ReadTrajectory"):
+                    key = "orbit.save-load|stale-%s-resurrected" % ("trajectory" if op == "ReadTrajectory" else "stability_info")
                 elif not fresh and hit_now:
                     key = f"orbit.{op}|stale-cache-entry-after-{last_mut}"
                 elif not fresh:
-                    key = diverged or f"orbit.{op}|differs-from-fresh-twin-after-{last_mut}"
+                    key = f"orbit.{op}|differs-from-fresh-twin-after-{last_mut}"
                 else:
-                    key = diverged or f"orbit.{op}|post-state-{'+'.join(comp)}-differs"
+                    key = f"orbit.{op}|post-state-{'+'.join(comp)}-differs"
             if key is not None:
                 problems.append({"key": key, "step": k, "op": op, "arg": arg, "real": list(out_r), "twin": list(out_t),
                                  "real_state": list(obs_r), "twin_state": list(obs_t),
@@ -417,12 +433,8 @@ class OrbitWorld:
                 diverged = diverged or key
             else:
                 diverged = None
-            if op == "Propagate":
-                last_prop_hit = any(h[1] == "propagate" and h[2] == "H" for h in hits)
             if op in ("SetPeriod", "Correct", "SetCorrOpts", "Load", "LoadInplace"):
                 last_mut = op
-                if op != "SetCorrOpts":
-                    last_prop_hit = False
             L = L2
         return events, problems
 
@@ -443,13 +455,21 @@ def live_flags(w: OrbitWorld) -> dict:
     w.do(h, "Save", [])
     w.do(h, "Load", [])
     f["SaveOpts"] = tolname(h["o"].correction_options.base.convergence.tol) == "loose"
+    w.do(h, "Propagate", ["s1", "fixed", "o4"])
+    w.do(h, "Save", [])
+    w.do(h, "Load", [])
+    w.do(h, "SetPeriod", ["P2"])
+    w.do(h, "Save", [])
+    w.do(h, "Load", [])
+    f["LeftoverFix"] = w.do(h, "ReadTrajectory", [])[0] == "raise"
     return f
 
 
 def make_cfg(template: str, flags: dict, wd, name: str, extra_const: dict | None = None):
     s = (CFG / template).read_text()
     rep = {"DictMode": '"%s"' % flags["DictMode"], "TrajOnHit": str(flags["TrajOnHit"]).upper(),
-           "CorrKeyState": str(flags["CorrKeyState"]).upper(), "SaveOpts": str(flags["SaveOpts"]).upper()}
+           "CorrKeyState": str(flags["CorrKeyState"]).upper(), "SaveOpts": str(flags["SaveOpts"]).upper(),
+           "LeftoverFix": str(flags["LeftoverFix"]).upper()}
     rep.update(extra_const or {})
     for k, v in rep.items():
         s, n = re.subn(rf"^(\s*{k}\s*=\s*).*$", lambda mm: mm.group(1) + str(v), s, flags=re.M)
@@ -497,28 +517,36 @@ def part_orbit(ck: Check, fx: Fx, rec: CacheRecorder, dictmode: str, rnd: random
     model_stale = sum(1 for h in hists if h and h[-1]["stale"])
     hists = drop_prefixes(hists)
     dbg("emission done")
+    # (b') deep exploration behind a prefix that re-loads the object from disk
+    r = tlc(OBJ / "MCOrbitObject.tla", CFG / f"OrbitObject.repaired.deep{ck.tier}.cfg", timeout=1500)
+    ck.model(f"OrbitObject.repaired.deep{ck.tier}", r)
+    cfgd = make_cfg(f"OrbitObject.asis.deep{ck.tier}.cfg", flags, wd, "OrbitObject.livedeep.cfg")
+    r = tlc(OBJ / "MCOrbitObject.tla", cfgd, timeout=1500, workers=8)
+    ck.model(f"OrbitObject.live.deep{ck.tier}", r)
+    deep = drop_prefixes([h for h in r.printed() if isinstance(h, list)])
+    model_stale += sum(1 for h in deep if h and h[-1]["stale"])
     # (c) the requirement on the live transcription: TLC's verdict is a prediction, confirmed below on the code
     cfgr = make_cfg("OrbitObject.asis.req.cfg", flags, wd, "OrbitObject.livereq.cfg")
     rr = tlc(OBJ / "MCOrbitObject.tla", cfgr, timeout=900, workers=8)
     ck.model("OrbitObject.live.requirement", rr, expect_ok=False)
-    ck.part("orbit_model", histories_emitted=n_states, maximal_histories=len(hists), model_predicts_stale=model_stale,
+    ck.part("orbit_model", histories_emitted=n_states, maximal_histories=len(hists), deep_histories=len(deep), model_predicts_stale=model_stale,
             tlc_requirement_verdict_on_live_transcription=rr.invariant_violated or "holds")
     dbg("req done")
     # (d) long random walks
     cfgs = make_cfg("OrbitObject.asis.sim.cfg", flags, wd, "OrbitObject.livesim.cfg")
-    nwalks = 150 if ck.quick else 1500
+    nwalks = 40 if ck.quick else 400          # per simulation worker (4 workers)
     rs = tlc(OBJ / "MCOrbitObject.tla", cfgs, simulate=f"num={nwalks}", depth=31, seed=ck.seed, workers=4, timeout=900)
     if rs.error:
         raise MachineryError(f"simulation failed: {rs.error}\n{rs.out[-2000:]}")
     walks = [h for h in rs.printed() if isinstance(h, list) and len(h) == 30]
-    if len(walks) < nwalks // 2:
+    if len(walks) < nwalks:
         raise MachineryError(f"simulation produced only {len(walks)} walks")
 
     dbg("sim done")
     budget = 2500 if ck.quick else 10 ** 9
     if len(hists) > budget:
         hists = rnd.sample(hists, budget)
-    jobs = [("lyapunov", h) for h in hists] + [("lyapunov", h) for h in walks]
+    jobs = [("lyapunov", h) for h in hists] + [("lyapunov", h) for h in deep] + [("lyapunov", h) for h in walks]
     if "halo" in worlds:
         sub = rnd.sample(hists, min(len(hists), 3000))
         jobs += [("halo", h) for h in sub] + [("halo", h) for h in walks[: len(walks) // 3]]
@@ -630,7 +658,7 @@ def main(tier=None, replay=None):
             bad = replay_make_key(data)
         else:
             fx = Fx()
-            with CacheRecorder() as rec:
+            with MemoDynsys(), CacheRecorder() as rec:
                 bad = REPLAYERS[data["object"]](fx, rec, data)
         if bad:
             print(f"VIOLATION property=C20 replay={replay}")
@@ -639,7 +667,7 @@ def main(tier=None, replay=None):
 
     dictmode = part_make_key(ck)
     fx = Fx()
-    with CacheRecorder() as rec:
+    with MemoDynsys(), CacheRecorder() as rec:
         part_orbit(ck, fx, rec, dictmode, rnd)
 
     ck.cov["rule"] = ("histories = one shortest history per distinct state of the TLC model of the working tree "
@@ -652,6 +680,8 @@ def main(tier=None, replay=None):
         "logical state of an orbit = (initial state, period, propagation settings its trajectory stands for, "
         "correction options in force), evolved by what each operation does to a freshly constructed object",
         "projection of a CorrectionResult = (x_corrected, half_period, converged); iteration counts are not compared",
+        "while histories run, the CR3BP vector-field factories are memoised by (mu, name) so that un-pickled "
+        "systems do not recompile their right-hand sides (pure functions of mu); service caches are untouched",
         "stamps are hashes of the exact bytes (no rounding): fresh twins were bit-reproducible in this process "
         "(re-checked on a sample at the end of every run)",
     ]
